@@ -57,6 +57,9 @@ class Adapter(EnvAdapter):
                 # the walk bookkeeping clauses assume the buffer holds the whole walk)
                 c("n10a2k2_t9_buf5", 10, 15, 4, 2, 2, 9, 4, 13, probe_cap=20, probe_every=3, max_step=5,
                   props=["C01", "C03", "C11"], policies=["random", "collide", "crowd"]),
+                # generator-heavy: many reset keys at a small max_degree, where the spanning-tree walk saturates nodes
+                c("n12e14d2a2k2_gen", 12, 14, 2, 2, 2, 5, 120, 0, props=["C10"], policies=["random"]),
+                c("n12e16d3a2k2_gen", 12, 16, 3, 2, 2, 5, 60, 0, props=["C10"], policies=["random"]),
             ]
         out = []
         for (n, e, d, a, k) in ((10, 15, 4, 2, 2), (36, 72, 5, 3, 4), (50, 100, 5, 4, 3), (12, 20, 4, 3, 2),
@@ -66,6 +69,9 @@ class Adapter(EnvAdapter):
                              probe_cap=100 if n <= 10 else min(60, a * n),
                              probe_every=7 if t == 70 else (2 if t == 7 else 1)))
         out.append(c("default_n36a3k4_t70", 36, 72, 5, 3, 4, 70, 8, 76, default=True, probe_every=8, probe_cap=108))
+        for (n, e, d, a, k, eps) in ((12, 14, 2, 2, 2, 600), (12, 16, 3, 2, 2, 400), (13, 16, 2, 2, 2, 300), (14, 18, 2, 3, 2, 300),
+                                     (20, 36, 4, 2, 5, 300)):
+            out.append(c(f"n{n}e{e}d{d}a{a}k{k}_gen", n, e, d, a, k, 5, eps, 0, props=["C10"], policies=["random"]))
         return out
 
     def make(self, cfg):
